@@ -1,7 +1,7 @@
 """Driver configuration for C12 (result routing, retry queue)."""
 
 CFG = dict(
-    tests=["TestC12"],
+    tests=["TestC12", "TestC12QueueRace"],
     n_quick=100, n_thorough=600, shards_thorough=4,
     rule="three case files from one PRNG. cases (observer): real Observer.Process + real Runner + the real post-processors "
          "combined as in each of the six flows + real retry queue; 21 boundary families (payloads [B; A] with A cached and B "
